@@ -214,6 +214,36 @@ def r6_proxy_rewrites_only_what_it_proxies(ctx):
     R.check(len(inner) >= 2 and bool(rewr), "C19.R6", "proxy:shape", "a rewriting path and a pass-through path", "ProxyGetRequest::call changed: %d inner calls, %d body constructions" % (len(inner), len(rewr)), "%s:%d" % (b.file, b.lo))
     passthrough = [c for c in inner if not any(b.dominates(r_.bb, c.bb) for r_ in rewr)]
     R.check(bool(passthrough), "C19.R6", "proxy:pass-through-exists", "requests that are not proxied are passed on", "no pass-through path left", "%s:%d" % (b.file, b.lo))
+    # the rewriting path is for GET only: it is dominated by the GET arm of a test of the request's own method (a POST -
+    # e.g. a batch - sent to a proxied path keeps its body and takes the normal route)
+    tr = ctx.tracer(follow_callers=False, follow_fields=False, inline_calls=False)
+    get_arms = set()
+    for bi, blk in enumerate(b.blocks):
+        t = blk["term"]
+        if not t or t["t"] != "switch" or bi not in b.reachable:
+            continue
+        p = op_place(t["discr"])
+        if p is None:
+            continue
+        for l in flow._local_copies_back(b, p["l"], 4):
+            for bj, sj, dpl, src in b.defs.get(l, []):
+                if src[0] == "rv" and src[1]["k"] == "discr":
+                    lv = tr.origins(b, src[1]["pl"])
+                    if any(x.kind == "call" and re.search(r"Request::<.*>::method$", x.detail.get("callee") or "") for x in lv):
+                        arms = {v: tb for v, tb in t["arms"]}
+                        if sorted(arms) == ["1"]:   # http::method::Inner::Get
+                            get_arms.add(arms["1"])
+    for c in b.calls_to(r"PartialEq.*::(eq|ne)$"):
+        ks = [op_const(a) for a in c.args]
+        lvs = [tr.origins(b, a) for a in c.args]
+        if any(k and str(k.get("name", "")).endswith("Method::GET") for k in ks) or any(l.kind == "const" and str(l.detail.get("name", "")).endswith("Method::GET") for lv in lvs for l in lv):
+            if any(x.kind == "call" and re.search(r"Request::<.*>::method$", x.detail.get("callee") or "") for lv in lvs for x in lv):
+                for sb, arms, other in flow.switch_on(b, c.dest["l"]):
+                    tgt = arms.get("0") if (c.name() or "").endswith("ne") else arms.get("1")
+                    if tgt is not None:
+                        get_arms.add(tgt)
+    for r_ in rewr:
+        R.check(any(b.dominates(g, r_.bb) for g in get_arms), "C19.R6", "proxy:rewrites-get-only", "the request is rewritten only when its method is GET", "ProxyGetRequest::call rewrites the request (%s) without having tested that its method is GET: a POST to a proxied path - a call, a batch - has its body replaced by the proxied call, none of its entries is executed" % short(r_.name() or ""), where(r_))
     muts = b.calls_to(r"HeaderMap::<.*>::(insert|append|remove|clear|entry|try_insert|try_append)$|Request::<.*>::(method_mut|uri_mut)$")
     R.floor("C19.R6", len(muts), 2, "request mutations in ProxyGetRequest::call")
     for m in muts:
